@@ -4,6 +4,10 @@ import FitModel.Generated.WireConsts
 import FitProps.C09
 import FitProps.WriterCrashLemmas
 import FitProps.WriterShortLemmas
+import FitProps.WriterPanicLemmas
+import FitProps.WriterCtxLemmas
+import FitProps.WriterCtxCrashLemmas
+import FitProps.WriterCtxReachLemmas
 /-!
 # C11 — Destination failures surface as errors; incomplete output is never a valid file
 
@@ -24,8 +28,10 @@ C11_fault_is_crash_prefix, C11_fault_is_crash_prefix_stream, C11_call_fault_is_c
 C11_validated_call_fault_is_crash_prefix, C11_crash_prefix_never_valid,
 and — destinations that return a short count WITHOUT error, outside the property's assumption — C11_short_write_model_refines,
 C11_short_write_buffered_safe, C11_short_write_witness (all at the end of the file).
-The model's encoder has no panic outcome (its result type is writer state × success); a panic of the implementation
-under a fault is a disagreement of the `enc-faults` family.
+NO PANIC: `FitModel/WriterPanic.lean` guards every Go operation of encoder.go / stream.go / writebuffer.go / lru.go that can
+panic (outcome `Run.panic`); C11_no_panic proves that no guard ever fails, C11_panic_model_refines that the outcomes that
+are left are exactly the model's, C11_panic_guards_witness that the guards are not vacuous. The driver evaluates the guarded
+model on every operation and answers `panic` when it panics; the harness answers `panic` when the real code does.
 -/
 namespace Fit.C11
 open Fit.Wire Fit.Writer
@@ -412,6 +418,193 @@ theorem C11_short_write_witness :
       (Witness.runShort .at 0 4 5).1.w.d.content = (Witness.runShort .seek 0 5 5).1.w.d.content ∧
       (Witness.runShort .at 0 4 5).1.w.d.content ≠ Witness.whole ∧
       Fit.Integrity.checkIntegrity (Witness.runShort .at 0 4 5).1.w.d.content = .err .crc 0) := by
+  decide +kernel
+
+/-! ### no panic (`FitModel/WriterPanic.lean`: every Go operation that can panic is a guarded operation) -/
+
+/-- NO PANIC OCCURS. For every message validator, EVERY answer schedule of the destination (`Sched`: each operation succeeds,
+fails after taking at most `j` bytes, or — outside `io.Writer`'s contract — takes at most `j` bytes without an error), every
+option combination (`0 < lruCap` is `localMessageType + 1`; `cc`: the code as pinned and as repaired, see `CtxCfg`), every destination kind and state, every write-buffer size:
+(1) ANY series of `Encode` / `EncodeWithContext` calls (any FIT values — also ones validation rejects —, any cancellation
+    point of each context, the caller going on after errors and after cancelled calls) on an encoder made by `New`, also one
+    made with a NIL writer, returns from every call: no run of the guarded model reaches `.panic`;
+(2) the same for ANY series of `WriteMessage` / `SequenceCompleted` calls on a stream encoder made by `NewStream` (in any
+    order: completion without messages, messages after a failed completion, …);
+(3) call by call: from every encoder state that satisfies `Enc.Safe` (bufio's `n ≤ len(buf)`, the LRU's index ranges,
+    `lastFileHeaderPos ≤ n` — true after `New`/`Reset`), each API call returns and leaves such a state again.
+`HdrNorm`: the header size is 12 or 14, as `encodeFileHeader` normalises it before slicing (`Wire.mkHdr`, `mkHdr_norm`). -/
+theorem C11_no_panic {σ : Type} (V : MsgValidator σ) (cc : CtxCfg) (R : Sched) (o : Opts) (ho : 0 < o.lruCap) :
+    (∀ (nilw : Bool) (kind : Kind) (size : Nat) (d : Dest) (calls : List EncCall), (∀ c ∈ calls, HdrNorm c.fit.hdr) →
+      (runEncCalls V cc nilw R o ⟨Enc.new o kind size d, false⟩ calls).isPanic = false) ∧
+    (∀ (sc : StreamCfg) (h : Fit.Wire.Hdr) (kind : Kind) (size : Nat) (d : Dest) (calls : List StreamCall), HdrNorm h →
+      (runStreamCalls V R sc o h (Stream.new o kind size d) V.init calls).isPanic = false) ∧
+    (∀ (nilw : Bool) (c : Ctx) (x : EncC) (f : FitIn), HdrNorm f.hdr → x.e.Safe →
+      ∃ r, encodeVG V cc nilw R o c x f = .ret r ∧ r.1.e.Safe) ∧
+    (∀ (h : Fit.Wire.Hdr) (s : Stream) (vs : σ) (m : WMsg), HdrNorm h → s.e.Safe →
+      ∃ r, s.writeMessageVG V R o h vs m = .ret r ∧ r.1.e.Safe) ∧
+    (∀ (sc : StreamCfg) (h : Fit.Wire.Hdr) (s : Stream) (vs : σ), HdrNorm h → s.e.Safe →
+      ∃ r, s.sequenceCompletedVG V R sc o h vs = .ret r ∧ r.1.e.Safe) := by
+  refine ⟨fun nilw kind size d calls hn => ?_, fun sc h kind size d calls hn => ?_, fun nilw c x f hn hs => ?_,
+    fun h s vs m hn hs => ?_, fun sc h s vs hn hs => ?_⟩
+  · obtain ⟨r, hr, _⟩ := runEncCalls_spec V cc nilw R o ho calls ⟨Enc.new o kind size d, false⟩ hn (Enc.Safe.new o kind size d ho)
+    rw [hr]; rfl
+  · obtain ⟨r, hr, _⟩ := runStreamCalls_spec V R sc o h hn ho calls (Stream.new o kind size d) V.init (Enc.Safe.new o kind size d ho)
+    rw [hr]; rfl
+  · obtain ⟨r, hr, hs', _⟩ := encodeVG_spec V cc nilw R o c x f hn ho hs
+    exact ⟨r, hr, hs'⟩
+  · exact ⟨_, (writeMessageVG_spec V R o h s vs m hn hs).1, (writeMessageVG_spec V R o h s vs m hn hs).2⟩
+  · exact ⟨_, (sequenceCompletedVG_spec V R sc o h s vs hn ho hs).1, (sequenceCompletedVG_spec V R sc o h s vs hn ho hs).2⟩
+
+/-- the hypotheses are met by what the API produces: every header `encodeFileHeader` has normalised (`Wire.mkHdr`, the function the
+driver builds its headers with) and every option set `WithHeaderOption` can make (`localMessageType + 1`) -/
+example (size pv prof dflt : Nat) : HdrNorm (mkHdr size pv prof dflt) := mkHdr_norm size pv prof dflt
+example : HdrNorm Witness.h ∧ 0 < Witness.o.lruCap ∧ (Enc.new Witness.o .seek 4 ⟨[], 0, []⟩).Safe :=
+  ⟨Or.inr rfl, by decide, Enc.Safe.new _ _ _ _ (by decide)⟩
+
+/-- THE GUARDED MODEL IS THE MODEL: where no guard fails — everywhere, by `C11_no_panic` — a guarded call returns exactly what
+the model of `FitModel/WriterShort.lean` says (which on contract-abiding schedules is the model of `FitModel/Writer.lean`:
+`C11_short_write_model_refines`); so every theorem of C09 / C11 about `encodeV`, `writeMessageV`, `sequenceCompletedV` speaks about
+the `.ret` outcomes of the guarded model. (`EncodeWithContext` with a context that is never cancelled: `c = none`.) -/
+theorem C11_panic_model_refines {σ : Type} (V : MsgValidator σ) (cc : CtxCfg) (R : Sched) (sc : StreamCfg) (o : Opts) (ho : 0 < o.lruCap)
+    (h : Fit.Wire.Hdr) (hn : HdrNorm h) :
+    (∀ (e : Enc) (f : FitIn), HdrNorm f.hdr → e.Safe →
+      encodeVG V cc false R o none ⟨e, false⟩ f = .ret (⟨(encodeVR V R o e f).1, false⟩, (encodeVR V R o e f).2)) ∧
+    (∀ (s : Stream) (vs : σ) (m : WMsg), s.e.Safe → s.writeMessageVG V R o h vs m = .ret (s.writeMessageVR V R o h vs m)) ∧
+    (∀ (s : Stream) (vs : σ), s.e.Safe → s.sequenceCompletedVG V R sc o h vs = .ret (s.sequenceCompletedVR V R sc o h vs)) := by
+  refine ⟨fun e f hf hs => ?_, fun s vs m hs => (writeMessageVG_spec V R o h s vs m hn hs).1,
+    fun s vs hs => (sequenceCompletedVG_spec V R sc o h s vs hn ho hs).1⟩
+  obtain ⟨r, hr, _, h3⟩ := encodeVG_spec V cc false R o none ⟨e, false⟩ f hf ho hs
+  rw [hr, h3 rfl rfl rfl]
+
+/-- … AND WITH CANCELLATION POINTS: on every contract-abiding schedule, for every context (cancelled at any poll or never) and every
+encoder state inside the invariant — also one left on `io.Discard` — the guarded `Encode` / `EncodeWithContext` returns exactly
+what `encodeCtxV` (the function the driver runs for `m=c`) says. -/
+theorem C11_panic_model_refines_ctx {σ : Type} (V : MsgValidator σ) (cc : CtxCfg) (F : Faults) (o : Opts) (ho : 0 < o.lruCap)
+    (c : Ctx) (x : EncC) (f : FitIn) (hn : HdrNorm f.hdr) (hs : x.e.Safe) :
+    encodeVG V cc false (Sched.ofFaults F) o c x f = .ret (encodeCtxV V cc F o c x f) :=
+  encodeVG_ctx V cc F o c x f hn ho hs
+
+namespace Witness
+/-- an encoder whose LRU has no slot (`localMessageType + 1 = 0` cannot be configured) -/
+def encNoSlot : Enc := { w := { kind := .at, size := 0, d := ⟨[], 0, []⟩ }, es := { lru := Lru.empty 0, tsRef := 0, tsLast := 0 } }
+/-- an encoder whose last header position lies beyond the bytes it has written -/
+def encBadPos : Enc := { (Enc.new o .at 0 ⟨[], 0, []⟩) with lastHdrPos := 5, n := 3, dataSize := 9 }
+/-- a bufio layer holding more bytes than its buffer has -/
+def wOverfull : W := { kind := .plain, size := 2, buf := [1, 2, 3], d := ⟨[], 0, []⟩ }
+def healthy : Sched := Sched.ofFaults noFault
+end Witness
+
+/-- THE GUARDS ARE NOT VACUOUS: states outside the invariant — an LRU without a slot (`l.bucket[0]` of an empty bucket), a
+header size that was not normalised (`b[:13]` of 12 marshalled bytes), a `Write` reached on a nil writer, a header
+position beyond the bytes written (negative `size` / offset), a buffered writer with `n > len(buf)` — make the guarded
+operation answer `.panic`; and a healthy run of the witness sequence does not. -/
+theorem C11_panic_guards_witness :
+    (encodeMessageG false Witness.healthy Witness.o Witness.encNoSlot Witness.m1).isPanic = true ∧
+    (encodeFileHeaderG false Witness.healthy (Enc.new Witness.o .at 0 ⟨[], 0, []⟩) ⟨13, 16, 21158⟩ 0).isPanic = true ∧
+    (encodeCRCG true Witness.healthy (Enc.new Witness.o .at 0 ⟨[], 0, []⟩)).isPanic = true ∧
+    (updateFileHeaderG Witness.healthy Witness.encBadPos Witness.h 0).isPanic = true ∧
+    (Witness.wOverfull.writeG false Witness.healthy [7]).isPanic = true ∧
+    (runEncCalls passThrough pinnedCtxCfg false Witness.healthy Witness.o ⟨Enc.new Witness.o .seek 4 ⟨[], 0, []⟩, false⟩
+      [⟨none, ⟨Witness.h, 0, [Witness.m1]⟩⟩, ⟨some 0, ⟨Witness.h, 0, [Witness.m1, Witness.m2]⟩⟩]).isPanic = false := by
+  decide +kernel
+
+/-! ### `EncodeWithContext`: a cancelled context -/
+
+/-- A CANCELLATION THAT IS OBSERVED SURFACES. `EncodeWithContext` polls the context once per message — in the dry run of the
+early-check strategy and in the real pass (`ctxPolls`: `n` polls for a random-access destination, `2·n` for a plain
+writer). For every validator, fault schedule, option set and encoder state (not left on `io.Discard`), a context that is
+cancelled before poll number `k` of the call (`k` < the polls the call makes for the messages validation lets through):
+(1) the call NEVER reports success: it returns `ctx.Err()` (`.ec`), the destination's error when an operation failed first,
+    or the validation error;
+(2) WHAT IS WRITTEN before the cancellation is observed: `encodeMessagesWithContext` has done exactly `encodeMessages` of the
+    first `k` messages — no CRC, no header update, no flush follow (the file header went out before it): the destination has
+    seen only a prefix of the operations of the uncancelled call;
+(3) observed in the dry run (plain writer, `k` < number of messages): no destination operation at all and the writer state
+    untouched — the encoder was left on `io.Discard` by the code as it was pinned (finding KF-C09-ctx-discard, `C09_ctx_discard_witness`;
+    repaired in /repo 4876fc8: `restoresWriter`). -/
+theorem C11_ctx_cancel_surfaces {σ : Type} (V : MsgValidator σ) (cc : CtxCfg) (F : Faults) (o : Opts) :
+    (∀ (k : Nat) (e : Enc) (f : FitIn),
+      (∀ ms', validateAll V V.init f.msgs = some ms' → k < ctxPolls e.w.kind ms'.length) →
+      (encodeCtxV V cc F o (some k) ⟨e, false⟩ f).2 ≠ .ok) ∧
+    (∀ (ms : List WMsg) (k : Nat) (e : Enc), k < ms.length →
+      (encodeMessagesCtx F o (some k) e ms).1 = (encodeMessages F o e (ms.take k)).1 ∧
+      (encodeMessagesCtx F o (some k) e ms).2.2 = (if (encodeMessages F o e (ms.take k)).2 then .ec else .err)) ∧
+    (∀ (k : Nat) (e : Enc) (f : FitIn), e.w.kind.direct = false → k < f.msgs.length →
+      encodeCtx cc F o (some k) ⟨e, false⟩ f = (⟨e.reset o, !cc.restoresWriter⟩, .ec)) := by
+  refine ⟨fun k e f hk => ?_, encodeMessagesCtx_cancel F o, fun k e f hd hlt => encodeCtx_cancel_dry cc F o k e f hd hlt⟩
+  unfold encodeCtxV
+  split
+  · simp
+  · split
+    · simp
+    · cases hv : validateAll V V.init f.msgs with
+      | none => simp
+      | some ms' =>
+        simp only
+        rcases encodeCtx_cancel cc F o k e { f with msgs := ms' } (hk ms' hv) with h | h <;> rw [h] <;> simp
+
+/-- A CANCELLED CALL LEAVES A CRASH STATE OF THE UNCANCELLED ONE, at an operation boundary. For every validator, EVERY fault
+schedule, option set, cancellation point `c` and encoder state (any destination kind, buffer size, content, position):
+under the same schedule the operations the destination has seen from `EncodeWithContext(ctx, fit)` are a PREFIX `ops1` of the
+operations `ops1 ++ ops2` it sees from `Encode(fit)`, each of them in full (same bytes, same count taken, same outcome) — the
+cancelled call's destination (content, position, log) is the replay of `ops1`, i.e. the state "the process stopped after
+operation `|ops1|`" of the uncancelled call. With `C11_fault_is_crash_prefix` every (cancellation, fault) combination is thus a
+crash state of the healthy, uncancelled `Encode`. -/
+theorem C11_ctx_cancel_is_crash_prefix {σ : Type} (V : MsgValidator σ) (cc : CtxCfg) (F : Faults) (o : Opts) (c : Ctx) (e : Enc)
+    (f : FitIn) :
+    ∃ ops1 ops2 : List DOp,
+      (encodeCtxV V cc F o c ⟨e, false⟩ f).1.e.w.d = e.w.d.run ops1 ∧
+      (encodeV V F o e f).1.w.d = e.w.d.run (ops1 ++ ops2) :=
+  encodeCtxV_prefix V cc F o c e f
+
+/-- A CANCELLED CALL NEVER LEAVES A VALID COMPLETE FILE. A FIT value with a default (zero) header (`ZeroHdr`), any destination kind
+and buffer size, a destination that is empty or holds an accepted stream, ANY fault schedule and ANY cancellation point:
+(1) whatever `EncodeWithContext` leaves on the destination is accepted by the integrity check only if it is `d₀` alone or `d₀`
+    followed by the COMPLETE sequence — never anything in between (the cancelled call has written a prefix of the first pass:
+    placeholder header, records; it never rewrites the header);
+(2) a call that returned `ctx.Err()` has not left the complete sequence (at least the file CRC is missing);
+hence (3): after a call that returned `ctx.Err()` the integrity check accepts the destination only if NOTHING of the call's
+output is visible in it. -/
+theorem C11_ctx_cancel_never_valid (cc : CtxCfg) (F : Faults) (o : Opts) (c : Ctx) (kind : Kind) (size : Nat) (d₀ : Dest) (n₀ : Nat)
+    (f : FitIn) (hend : d₀.pos = d₀.content.length) (hown : kind = .at → n₀ = d₀.content.length)
+    (hbase : d₀.content = [] ∨ Acc d₀.content) (hz : ZeroHdr o f) :
+    (Acc (encodeCtx cc F o c ⟨Fit.C09.encOn o kind size d₀ n₀, false⟩ f).1.e.w.d.content →
+      (encodeCtx cc F o c ⟨Fit.C09.encOn o kind size d₀ n₀, false⟩ f).1.e.w.d.content = d₀.content ∨
+      (encodeCtx cc F o c ⟨Fit.C09.encOn o kind size d₀ n₀, false⟩ f).1.e.w.d.content = d₀.content ++ encodeFit o f.hdr f.msgs) ∧
+    ((encodeCtx cc F o c ⟨Fit.C09.encOn o kind size d₀ n₀, false⟩ f).2 = .ec →
+      (encodeCtx cc F o c ⟨Fit.C09.encOn o kind size d₀ n₀, false⟩ f).1.e.w.d.content ≠ d₀.content ++ encodeFit o f.hdr f.msgs) ∧
+    ((encodeCtx cc F o c ⟨Fit.C09.encOn o kind size d₀ n₀, false⟩ f).2 = .ec →
+      Acc (encodeCtx cc F o c ⟨Fit.C09.encOn o kind size d₀ n₀, false⟩ f).1.e.w.d.content →
+      (encodeCtx cc F o c ⟨Fit.C09.encOn o kind size d₀ n₀, false⟩ f).1.e.w.d.content = d₀.content) := by
+  have hr := Fit.C09.encOn_ready o kind size d₀ n₀ hend hown
+  have h1 : Acc (encodeCtx cc F o c ⟨Fit.C09.encOn o kind size d₀ n₀, false⟩ f).1.e.w.d.content →
+      (encodeCtx cc F o c ⟨Fit.C09.encOn o kind size d₀ n₀, false⟩ f).1.e.w.d.content = d₀.content ∨
+      (encodeCtx cc F o c ⟨Fit.C09.encOn o kind size d₀ n₀, false⟩ f).1.e.w.d.content = d₀.content ++ encodeFit o f.hdr f.msgs :=
+    fun hacc => reach_acc o kind f d₀.content _ hz hbase (encodeCtx_reach cc F o c (Fit.C09.encOn o kind size d₀ n₀) f hr) hacc
+  have h2 : (encodeCtx cc F o c ⟨Fit.C09.encOn o kind size d₀ n₀, false⟩ f).2 = .ec →
+      (encodeCtx cc F o c ⟨Fit.C09.encOn o kind size d₀ n₀, false⟩ f).1.e.w.d.content ≠ d₀.content ++ encodeFit o f.hdr f.msgs := by
+    intro hec heq
+    have hl := encodeCtx_ec_short cc F o c (Fit.C09.encOn o kind size d₀ n₀) f hr hec
+    rw [heq, List.length_append] at hl
+    have : (Fit.C09.encOn o kind size d₀ n₀).w.d.content.length = d₀.content.length := rfl
+    omega
+  refine ⟨h1, h2, fun hec hacc => ?_⟩
+  rcases h1 hacc with h | h
+  · exact h
+  · exact absurd h (h2 hec)
+
+/-- not vacuous: an unbuffered WriteSeeker, two messages, the context cancelled before the second poll — the call returns
+`ctx.Err()`, the destination has seen the header write and the two writes of the first message (3 of the 8 operations of the
+uncancelled call, in full) and holds 25 bytes that the integrity check rejects -/
+example :
+    (encodeCtxV passThrough pinnedCtxCfg noFault Witness.o (some 1) ⟨Enc.new Witness.o .seek 0 ⟨[], 0, []⟩, false⟩
+      ⟨Witness.h, 0, [Witness.m1, Witness.m2]⟩).2 = .ec ∧
+    (encodeCtxV passThrough pinnedCtxCfg noFault Witness.o (some 1) ⟨Enc.new Witness.o .seek 0 ⟨[], 0, []⟩, false⟩
+      ⟨Witness.h, 0, [Witness.m1, Witness.m2]⟩).1.e.w.d.log.reverse =
+      (encodeV passThrough noFault Witness.o (Enc.new Witness.o .seek 0 ⟨[], 0, []⟩) ⟨Witness.h, 0, [Witness.m1, Witness.m2]⟩).1.w.d.log.reverse.take 3 ∧
+    (encodeV passThrough noFault Witness.o (Enc.new Witness.o .seek 0 ⟨[], 0, []⟩) ⟨Witness.h, 0, [Witness.m1, Witness.m2]⟩).1.w.d.log.length = 8 ∧
+    Fit.Integrity.checkIntegrity (encodeCtxV passThrough pinnedCtxCfg noFault Witness.o (some 1) ⟨Enc.new Witness.o .seek 0 ⟨[], 0, []⟩, false⟩
+      ⟨Witness.h, 0, [Witness.m1, Witness.m2]⟩).1.e.w.d.content = .err .notFit 0 := by
   decide +kernel
 
 end Fit.C11
